@@ -24,6 +24,9 @@ pub struct Db {
     pub filter_sets: BTreeMap<String, String>,
     /// origin AS number -> (route prefixes, route6 prefixes); duplicates allowed
     pub routes: BTreeMap<String, (Vec<String>, Vec<String>)>,
+    /// as-sets whose members query is answered with an error response (the reference treats
+    /// them as unobtainable)
+    pub broken_as_sets: BTreeMap<String, Fault>,
 }
 
 impl Db {
@@ -274,7 +277,7 @@ pub fn gen_expr(ctx: &mut Ctx, atoms: &[String], depth: usize) -> String {
 // protocol server
 // ---------------------------------------------------------------------------------------------
 
-#[derive(Clone, Copy, Debug, PartialEq, Eq)]
+#[derive(Clone, Copy, Debug, PartialEq, Eq, PartialOrd, Ord)]
 pub enum Fault {
     NotFound,
     NotUnique,
@@ -341,6 +344,14 @@ impl IrrState {
                 return match self.db.expand_route_set(name) {
                     Some(ps) => data(&ps.join(" ")),
                     None => "D\n".into(),
+                };
+            }
+            if let Some(f) = self.db.broken_as_sets.get(&name.to_ascii_uppercase()).copied() {
+                self.faults_fired.push((k, line.to_string(), f));
+                return match f {
+                    Fault::NotFound => "D\n".into(),
+                    Fault::NotUnique => "E\n".into(),
+                    Fault::Other => "F injected error\n".into(),
                 };
             }
             return match self.db.expand_as_set(name) {
@@ -522,6 +533,9 @@ impl Resolver<'_, FilterSet, MpFilterExpr> for Reference<'_> {
 impl Resolver<'_, AsSet, PrefixSet<Any>> for Reference<'_> {
     type IError = RefError;
     fn resolve(&mut self, name: &AsSet) -> Result<PrefixSet<Any>, RefError> {
+        if self.db.broken_as_sets.contains_key(&name.to_string().to_ascii_uppercase()) {
+            return Err(RefError(format!("the IRR answers the members query of {name} with an error")));
+        }
         let asns = self.db.expand_as_set(&name.to_string()).ok_or_else(|| RefError(format!("as-set {name} does not exist")))?;
         let mut all = Vec::new();
         for a in asns {
